@@ -535,6 +535,52 @@ def bounded_ed(ctx):
                         return evals, nontrivial, samples, dict(
                             what="malformed script was applied instead of raising ValueError", old=old, script=b,
                             bytes=as_bytes, got=got)
+        # sizes no small example reaches: files of thousands of lines with hundreds of hunks (merged and as adjacent single
+        # commands), and a file of 1.2 million lines whose commands carry seven-digit addresses
+        rng2 = random.Random(18)
+        old = ["line %d\n" % i for i in range(4000)]
+        new = list(old)
+        for k in range(300):
+            pos = rng2.randrange(len(new))
+            what = rng2.choice(["del", "ins", "chg", "chg2"])
+            if what == "del":
+                del new[pos:pos + rng2.randint(1, 3)]
+            elif what == "ins":
+                new[pos:pos] = ["new %d-%d\n" % (k, j) for j in range(rng2.randint(1, 3))]
+            else:
+                new[pos:pos + (2 if what == "chg2" else 1)] = ["chg %d\n" % k]
+        for origin, script in (("difflib", _ed_script_difflib(old, new)),
+                               ("difflib, deletions and appends as separate adjacent commands", _ed_script_split(old, new))):
+            for as_bytes in (False, True):
+                evals += 1
+                try:
+                    got = _apply(script, old, as_bytes, materialize=as_bytes)
+                except Exception as e:
+                    return evals, nontrivial, samples, dict(what="a script of %d commands for a 4000-line file raised %r" % (
+                        sum(1 for l in script if re.fullmatch(r"\d+(,\d+)?[acd]\n", l)), e), script_from=origin, bytes=as_bytes)
+                nontrivial.add(("large", origin, as_bytes))
+                if got != new:
+                    first = next((i for i, (x, y) in enumerate(zip(got, new)) if x != y), min(len(got), len(new)))
+                    return evals, nontrivial, samples, dict(what="applying a script of hundreds of hunks to a 4000-line file does not give the target lines",
+                                                            script_from=origin, bytes=as_bytes, first_difference_at_line=first, lines_got=len(got),
+                                                            lines_expected=len(new))
+        huge = ["l\n"] * 1200000
+        script = ["1100001,1100003c\n", "X\n", "Y\n", ".\n", "1000200a\n", "Z\n", ".\n", "1000101,1000103d\n", "1000000d\n", "5c\n", "five\n", ".\n"]
+        want = list(huge)
+        want[1100000:1100003] = ["X\n", "Y\n"]
+        want[1000200:1000200] = ["Z\n"]
+        del want[1000100:1000103]
+        del want[999999]
+        want[4:5] = ["five\n"]
+        evals += 1
+        try:
+            got = _apply(script, huge, False)
+        except Exception as e:
+            return evals, nontrivial, samples, dict(what="a script with seven-digit addresses raised %r" % (e,), script=script)
+        nontrivial.add(("huge",))
+        if got != want:
+            return evals, nontrivial, samples, dict(what="a script with seven-digit addresses does not give the target lines", script=script,
+                                                    lines_got=len(got), lines_expected=len(want))
     finally:
         shutil.rmtree(tmp, ignore_errors=True)
     return evals, nontrivial, samples, None
